@@ -298,6 +298,10 @@ class PymbolicToASTMapper(CachedMapper):
     def map_constant(self, expr: ScalarT) -> ast.expr:
         if isinstance(expr, bool):
             return ast.NameConstant(expr)
+        elif isinstance(expr, (int, float)) and expr < 0:
+            # ast.unparse writes Constant(-2) as a bare "-2", and
+            # "-2 ** x" is -(2 ** x): emit the sign as an operator.
+            return ast.UnaryOp(ast.USub(), ast.Constant(-expr, None))
         else:
             return ast.Constant(expr, None)
 
